@@ -559,6 +559,40 @@ def hooks : List Out → List Nat
   | .hook n :: r => n :: hooks r
   | _ :: r => hooks r
 
+/-! ## the addon across connections: the options are the only state -/
+
+/-- what `NextLayer.configure` keeps between connections -/
+structure Addon (Pat : Type) where
+  ignorePats : List Pat
+  allowPats : List Pat
+
+inductive HStep (Pat : Type) where
+  /-- an options update touching ignore_hosts and/or allow_hosts (`none` = key not in `updated`) -/
+  | setOpts (ignore allow : Option (List Pat))
+  /-- a next_layer decision for some connection; the pattern fields of `c` are supplied by the addon state -/
+  | conn (c : NCfg Pat) (dc ds : Bytes)
+
+def Addon.cfg {Pat : Type} (a : Addon Pat) (c : NCfg Pat) : NCfg Pat :=
+  { c with ignorePats := a.ignorePats, allowPats := a.allowPats }
+
+/-- one step of a history on ONE addon instance: new state, and the decision if the step is a connection -/
+def hstep {Pat : Type} (E : Env Pat) (a : Addon Pat) : HStep Pat → Addon Pat × Option (Res Bool × Res (List LK))
+  | .setOpts ig al => ({ ignorePats := ig.getD a.ignorePats, allowPats := al.getD a.allowPats }, none)
+  | .conn c dc ds => (a, some (ignoreConnection E (a.cfg c).toCfg dc ds, nextLayer E (a.cfg c) dc ds))
+
+def hrun {Pat : Type} (E : Env Pat) : Addon Pat → List (HStep Pat) → Addon Pat × List (Res Bool × Res (List LK))
+  | a, [] => (a, [])
+  | a, st :: rest =>
+    let (a1, o) := hstep E a st
+    let (a2, os) := hrun E a1 rest
+    (a2, (match o with | some x => [x] | none => []) ++ os)
+
+/-- the options in force after a history of updates -/
+def optionsAfter {Pat : Type} (a : Addon Pat) : List (HStep Pat) → Addon Pat
+  | [] => a
+  | .setOpts ig al :: rest => optionsAfter { ignorePats := ig.getD a.ignorePats, allowPats := al.getD a.allowPats } rest
+  | .conn _ _ _ :: rest => optionsAfter a rest
+
 /-! ## `ClientTLSLayer` with `tls_clienthello` answering `ignore_connection = True` -/
 
 structure TlsSess where
